@@ -75,6 +75,25 @@ def run(ctx):
                 r.fail(rule, 'ack:' + name, '%s is not tied to the outcome of retransmission_queue.remove / the subscription lookup' % name, loc=cb.loc)
     if not done:
         r.lost(rule, 'ack', 'acknowledgement closure with retransmission_queue.remove not found')
+    # ---------------- (ii-b) acknowledgements of a publish request that is refused are not applied
+    eb = db.find_bodies(SUBS + r'enqueue_publish_request$')
+    if not eb:
+        r.lost(rule, 'enqueue_publish_request', 'not found')
+    else:
+        b2 = eb[0]; F2 = ctx.facts(b2)
+        acks = [c for c in b2.calls() if c.callee.endswith('process_subscription_acknowledgements')]
+        pushes = [c for c in b2.calls() if c.callee.endswith('VecDeque::push_front') and fmt_sym(b2, F2.sym_operand(c.args[0])).endswith('.publish_request_queue')]
+        rej = [(bb, si) for bb, si, pl in result_ctor_sites(b2, 'Err') if 'BadTooManyPublishRequests' in str(b2.stmts(bb)[si][2][4][0])]
+        if len(acks) != 1 or not pushes or not rej:
+            r.lost(rule, 'enqueue:calls', 'expected one acknowledgement call, the queue push and the BadTooManyPublishRequests refusal')
+        else:
+            after = b2.reachable_blocks(acks[0].target) if acks[0].target is not None else set()
+            post = all(any(p.bb in after for p in pushes) for _ in [0]) and not any(bb in after for bb, si in rej)
+            before = any(acks[0].bb in b2.reachable_blocks(bb) for bb, si in rej)
+            if post and not before:
+                r.ok(rule, 'enqueue:ack-only-when-accepted', 'acknowledgements are applied only on the path that queues the request; the refusal path does not touch the retransmission queue', loc=acks[0].loc)
+            else:
+                r.fail(rule, 'enqueue:ack-only-when-accepted', 'acknowledgements of a PublishRequest can be applied although the request is refused with BadTooManyPublishRequests (the client is told nothing, Republish then fails)', loc=acks[0].loc)
     # ---------------- (iii)
     rule = 'republish-same-store'
     fb = db.find_bodies(SUBS + r'find_notification_message$')
@@ -93,4 +112,4 @@ def run(ctx):
                 r.ok(rule, 'republish:lookup', 'Ok(clone of retransmission_queue[(subscription_id, sequence_number)])', loc=g[0].loc)
             else:
                 r.fail(rule, 'republish:lookup', 'Republish does not return a clone of the entry stored under (subscription_id, sequence_number)', detail='%s -> %s' % (k[:80], okv), loc=g[0].loc)
-    r.floor('C40', 'obligations', len(r.obls), 6)
+    r.floor('C40', 'obligations', len(r.obls), 7)
